@@ -144,3 +144,229 @@ Proof. intros st s s1 o H1 H2. destruct o; cbn in *; auto; eapply frame_trans; e
 
 Lemma frame_any_weaken : forall k st s o, frame_any (k :: st) s o -> frame_any st s o.
 Proof. intros k st s o H. destruct o; cbn in *; auto; eapply frame_weaken_stack; eauto. Qed.
+
+Section Frame.
+Variable rules : key -> rule.
+Variable env : key -> N.
+Variable F : key -> N -> list value -> list N -> N -> N.
+Variable order : N -> key -> list dep -> list dep.
+Variable ens : list key -> state -> key -> outcome.
+Hypothesis Hens : forall stack s k, frame_o stack s k (ens stack s k).
+
+Lemma requests_frame : forall k stack ks slot s acc o acc',
+  requests ens k stack ks slot s acc = (o, acc') ->
+  frame_any (k :: stack) s o /\ (forall s', o = Ok s' -> forall x, In x ks -> done s' x).
+Proof.
+  intros k stack ks. induction ks as [|x ks IH]; intros slot s acc o acc' H; cbn [requests] in H.
+  - inversion H; subst. split; [apply frame_refl | intros s' _ x []].
+  - pose proof (Hens (k :: stack) s x) as Hx.
+    destruct (ens (k :: stack) s x) as [s1| s1 p|] eqn:E.
+    + destruct Hx as [Hf Hd]. apply IH in H. destruct H as [H1 H2]. split.
+      * eapply frame_any_trans; [|exact H1]. eapply frame_trans; [exact Hf | apply frame_emit].
+      * intros s' -> y [<-|Hy]; [|now apply (H2 s' eq_refl)].
+        cbn in H1. eapply frame_done_mono; [exact H1|]. now apply done_emit.
+    + inversion H; subst. split; [exact Hx | discriminate].
+    + inversion H; subst. split; [exact I | discriminate].
+Qed.
+
+Lemma follows_frame : forall k stack ks s o,
+  follows ens k stack ks s = o ->
+  frame_any (k :: stack) s o /\ (forall s', o = Ok s' -> forall x, In x ks -> done s' x).
+Proof.
+  intros k stack ks. induction ks as [|x ks IH]; intros s o H; cbn [follows] in H.
+  - subst o. split; [apply frame_refl | intros s' _ x []].
+  - pose proof (Hens (k :: stack) s x) as Hx.
+    destruct (ens (k :: stack) s x) as [s1| s1 p|] eqn:E.
+    + destruct Hx as [Hf Hd]. apply IH in H. destruct H as [H1 H2]. split.
+      * eapply frame_any_trans; [exact Hf | exact H1].
+      * intros s' -> y [<-|Hy]; [|now apply (H2 s' eq_refl)].
+        cbn in H1. eapply frame_done_mono; [exact H1 | exact Hd].
+    + subst o. split; [exact Hx | discriminate].
+    + subst o. split; [exact I | discriminate].
+Qed.
+
+Lemma frame_notdone : forall k st a b, frame_st (k :: st) a b -> ~ done a k -> ~ done b k.
+Proof.
+  intros k st a b (He & _ & _ & _ & Hm & _) Hn Hd. apply Hn. unfold done in *.
+  rewrite <- He, <- Hd. f_equal. symmetry. apply Hm. left. now left.
+Qed.
+
+Lemma complete_epoch : forall s k rl r bk v, st_epoch (complete order s k rl r bk v) = st_epoch s.
+Proof. reflexivity. Qed.
+
+Lemma complete_mem_other : forall s k rl r bk v x, x <> k ->
+  get (st_mem (complete order s k rl r bk v)) x = get (st_mem s) x.
+Proof. intros. unfold complete; cbn. now apply get_update_other. Qed.
+
+Lemma complete_db_other : forall s k rl r bk v x, x <> k ->
+  get (st_db (complete order s k rl r bk v)) x = get (st_db s) x.
+Proof. intros. unfold complete; cbn. now apply get_update_other. Qed.
+
+Lemma complete_done : forall s k rl r bk v, done (complete order s k rl r bk v) k.
+Proof. intros. unfold done, complete; cbn. now rewrite get_update_same. Qed.
+
+Lemma complete_frame : forall st s k rl r bk v, ~ In k st -> ~ done s k ->
+  frame_st st s (complete order s k rl r bk v).
+Proof.
+  intros st s k rl r bk v Hst Hnd. unfold frame_st. repeat split.
+  - unfold complete; cbn. intros x Hx. apply filter_In in Hx. tauto.
+  - unfold complete; cbn. now exists [EComplete k v].
+  - intros x Hx. apply complete_mem_other. intros ->. destruct Hx; contradiction.
+  - intros x Hx. apply complete_db_other. intros ->. destruct Hx; contradiction.
+Qed.
+
+(* the state in which the requests of a run start *)
+Definition run_pre (k : key) (r : result) (s : state) : state :=
+  let s := emit (emit s (ECreate k)) (EStart k) in
+  if negb (N.eqb (res_builtAt r) 0) && N.eqb (r_sig (rules k)) (res_sig r) then emit s (EPrior k (res_value r)) else s.
+
+Lemma run_pre_frame : forall st k r s, frame_st st s (run_pre k r s).
+Proof.
+  intros st k r s. unfold run_pre.
+  assert (H2 : frame_st st s (emit (emit s (ECreate k)) (EStart k))).
+  { eapply frame_trans; apply frame_emit. }
+  destruct (negb (N.eqb (res_builtAt r) 0) && N.eqb (r_sig (rules k)) (res_sig r)); [|exact H2].
+  eapply frame_trans; [exact H2 | apply frame_emit].
+Qed.
+
+Lemma run_frame : forall k stack r s, ~ done s k -> ~ In k stack ->
+  frame_o stack s k (run rules env F order ens k stack r s).
+Proof.
+  intros k stack r s Hnd Hst. unfold run. fold (run_pre k r s).
+  pose proof (run_pre_frame (k :: stack) k r s) as H0. set (s0 := run_pre k r s) in *.
+  destruct (requests ens k stack (r_req (rules k)) 0 s0 []) as [o1 slots1] eqn:E1.
+  apply requests_frame in E1. destruct E1 as [F1 _].
+  pose proof (frame_any_trans _ _ _ _ H0 F1) as G1.
+  destruct o1 as [s1|s1 p|]; [| cbn; now apply frame_weaken_stack in G1 | exact I].
+  destruct (requests ens k stack (r_single (rules k)) (length slots1) s1 []) as [o2 slots2] eqn:E2.
+  apply requests_frame in E2. destruct E2 as [F2 _].
+  pose proof (frame_any_trans _ _ _ _ G1 F2) as G2.
+  destruct o2 as [s2|s2 p|]; [| cbn; now apply frame_weaken_stack in G2 | exact I].
+  destruct (follows ens k stack (r_follow (rules k)) s2) as [s3|s3 p|] eqn:E3;
+    apply follows_frame in E3; destruct E3 as [F3 _]; pose proof (frame_any_trans _ _ _ _ G2 F3) as G3;
+    [| cbn; now apply frame_weaken_stack in G3 | exact I].
+  destruct (requests ens k stack (branch_keys (rules k) slots1) (length slots1 + length slots2) s3 [])
+    as [o4 slots3] eqn:E4.
+  apply requests_frame in E4. destruct E4 as [F4 _].
+  pose proof (frame_any_trans _ _ _ _ G3 F4) as G4.
+  destruct o4 as [s4|s4 p|]; [| cbn; now apply frame_weaken_stack in G4 | exact I].
+  cbn in G4.
+  assert (G5 : frame_st (k :: stack) s (emit s4 (EAvail k))) by (eapply frame_trans; [exact G4 | apply frame_emit]).
+  set (s5 := emit s4 (EAvail k)) in *.
+  pose proof (frame_notdone _ _ _ _ G5 Hnd) as Hnd5.
+  set (v := task_value rules env F k (rules k) slots1 slots3).
+  set (s6 := complete order s5 k (rules k) r (branch_keys (rules k) slots1) v).
+  assert (G6 : frame_st stack s s6).
+  { eapply frame_trans; [eapply frame_weaken_stack; exact G5 | now apply complete_frame]. }
+  destruct (follows ens k stack (r_disc (rules k)) s6) as [s7|s7 p|] eqn:E7;
+    apply follows_frame in E7; destruct E7 as [F7 _]; [| |exact I].
+  - cbn in F7. split.
+    + eapply frame_trans; [exact G6 | eapply frame_weaken_stack; exact F7].
+    + eapply frame_done_mono; [exact F7 | apply complete_done].
+  - cbn in F7 |- *. eapply frame_trans; [exact G6 | eapply frame_weaken_stack; exact F7].
+Qed.
+
+Lemma frame_o_trans : forall st s s1 k o, frame_st st s s1 -> frame_o st s1 k o -> frame_o st s k o.
+Proof.
+  intros st s s1 k o H1 H2. destruct o; cbn in *; auto.
+  - destruct H2 as [H2 Hd]. split; [eapply frame_trans; eauto | exact Hd].
+  - eapply frame_trans; eauto.
+Qed.
+
+Lemma scan_frame : forall k stack r ds s, ~ done s k -> ~ In k stack ->
+  frame_o stack s k (scan rules env F order ens k stack r ds s).
+Proof.
+  intros k stack r ds. induction ds as [|d ds IH]; intros s Hnd Hst; cbn [scan].
+  - split; [now apply frame_set_mem|]. unfold done, set_mem; cbn. now rewrite get_update_same.
+  - pose proof (Hens (k :: stack) s (d_key d)) as Hd.
+    destruct (ens (k :: stack) s (d_key d)) as [s1|s1 p|] eqn:E; [| cbn in *; now apply frame_weaken_stack in Hd | exact I].
+    destruct Hd as [Hf _].
+    pose proof (frame_notdone _ _ _ _ Hf Hnd) as Hnd1.
+    apply frame_weaken_stack in Hf.
+    destruct (negb (d_order d) && (res_builtAt r <? res_computedAt (get (st_mem s1) (d_key d)))).
+    + eapply frame_o_trans; [eapply frame_trans; [exact Hf | apply frame_emit] |].
+      apply run_frame; [|exact Hst]. intros H. apply Hnd1. now apply done_emit in H.
+    + eapply frame_o_trans; [exact Hf | now apply IH].
+Qed.
+
+Lemma ensure_body_frame : forall stack s k, frame_o stack s k (ensure_body rules env F order ens stack s k).
+Proof.
+  intros stack s k. unfold ensure_body.
+  destruct (existsb (N.eqb k) stack) eqn:Est; [cbn; apply frame_refl|].
+  apply existsb_eqb_nIn in Est.
+  destruct (N.eqb (res_builtAt (get (st_mem s) k)) (st_epoch s)) eqn:Ed.
+  { apply N.eqb_eq in Ed. split; [apply frame_refl | exact Ed]. }
+  apply N.eqb_neq in Ed. fold (done s k) in Ed.
+  set (r := mkRes _ _ _ _ _). cbn [res_builtAt r].
+  assert (H0 : frame_st stack s (set_mem s k r)) by now apply frame_set_mem.
+  assert (Hnd : ~ done (set_mem s k r) k).
+  { unfold done, set_mem; cbn. rewrite get_update_same. exact Ed. }
+  assert (Hrun : forall e, frame_o stack s k (run rules env F order ens k stack r (emit (set_mem s k r) e))).
+  { intros e. eapply frame_o_trans; [eapply frame_trans; [exact H0 | apply frame_emit]|].
+    apply run_frame; [|exact Est]. intros H. apply Hnd. now apply done_emit in H. }
+  destruct (N.eqb (res_builtAt (get (st_mem s) k)) 0); [apply Hrun|].
+  destruct (flagged (set_mem s k r) k); [apply Hrun|].
+  destruct (negb (N.eqb (r_sig (rules k)) (res_sig r))); [apply Hrun|].
+  destruct (negb (valid rules env k r)).
+  - eapply frame_o_trans; [eapply frame_trans; [eapply frame_trans; [exact H0 | apply frame_emit] | apply frame_emit]|].
+    apply run_frame; [|exact Est]. intros H. apply Hnd. now apply done_emit, done_emit in H.
+  - eapply frame_o_trans; [eapply frame_trans; [exact H0 | apply frame_emit]|].
+    apply scan_frame; [|exact Est]. intros H. apply Hnd. now apply done_emit in H.
+Qed.
+
+End Frame.
+
+Section Lift.
+Variable rules : key -> rule.
+Variable env : key -> N.
+Variable F : key -> N -> list value -> list N -> N -> N.
+Variable order : N -> key -> list dep -> list dep.
+
+Theorem ensure_frame : forall fuel stack s k, frame_o stack s k (ensure rules env F order fuel stack s k).
+Proof.
+  induction fuel as [|f IH]; intros stack s k; cbn [ensure].
+  - exact I.
+  - apply ensure_body_frame. exact IH.
+Qed.
+
+(* the individual facts, in the form the task statement lists them *)
+Corollary ensure_epoch : forall f stack s k s', ensure rules env F order f stack s k = Ok s' -> st_epoch s' = st_epoch s.
+Proof. intros f stack s k s' H. pose proof (ensure_frame f stack s k) as Hf. rewrite H in Hf. apply Hf. Qed.
+
+Corollary ensure_db_epoch : forall f stack s k s', ensure rules env F order f stack s k = Ok s' -> st_db_epoch s' = st_db_epoch s.
+Proof. intros f stack s k s' H. pose proof (ensure_frame f stack s k) as Hf. rewrite H in Hf. apply Hf. Qed.
+
+Corollary ensure_flag : forall f stack s k s' x, ensure rules env F order f stack s k = Ok s' ->
+  In x (st_flag s') -> In x (st_flag s).
+Proof. intros f stack s k s' x H. pose proof (ensure_frame f stack s k) as Hf. rewrite H in Hf. apply Hf. Qed.
+
+Corollary ensure_log : forall f stack s k s', ensure rules env F order f stack s k = Ok s' ->
+  exists l, st_log s' = l ++ st_log s.
+Proof. intros f stack s k s' H. pose proof (ensure_frame f stack s k) as Hf. rewrite H in Hf. apply Hf. Qed.
+
+Corollary ensure_frozen : forall f stack s k s' x, ensure rules env F order f stack s k = Ok s' ->
+  res_builtAt (get (st_mem s) x) = st_epoch s -> get (st_mem s') x = get (st_mem s) x.
+Proof.
+  intros f stack s k s' x H Hd. pose proof (ensure_frame f stack s k) as Hf. rewrite H in Hf.
+  destruct Hf as [(_ & _ & _ & _ & Hm & _) _]. apply Hm. now right.
+Qed.
+
+Corollary ensure_stack_unchanged : forall f stack s k s' x, ensure rules env F order f stack s k = Ok s' ->
+  In x stack -> get (st_mem s') x = get (st_mem s) x.
+Proof.
+  intros f stack s k s' x H Hd. pose proof (ensure_frame f stack s k) as Hf. rewrite H in Hf.
+  destruct Hf as [(_ & _ & _ & _ & Hm & _) _]. apply Hm. now left.
+Qed.
+
+Corollary ensure_done : forall f stack s k s', ensure rules env F order f stack s k = Ok s' ->
+  res_builtAt (get (st_mem s') k) = st_epoch s.
+Proof.
+  intros f stack s k s' H. pose proof (ensure_frame f stack s k) as Hf. rewrite H in Hf.
+  destruct Hf as [(He & _) Hd]. unfold done in Hd. congruence.
+Qed.
+
+Corollary ensure_cycle_frame : forall f stack s k s' p, ensure rules env F order f stack s k = Cycle s' p ->
+  frame_st stack s s'.
+Proof. intros f stack s k s' p H. pose proof (ensure_frame f stack s k) as Hf. rewrite H in Hf. exact Hf. Qed.
+
+End Lift.
